@@ -232,9 +232,11 @@ package resource
 //@ func ComputeReadConfig(opts) (res)
 //@   requires forall i int :: 0 <= i && i < len(opts) ==> !isnil(opts[i]) && (istype(opts[i], readOptionFunc) ==> cast(opts[i], readOptionFunc) != nil)
 //@   ensures [fresh] res != nil && fresh(res)
+//@   ensures [defaults] len(opts) == 0 ==> res.ReadMask == nil && res.Include == nil && !res.UpdatesOnly && !res.Backpressure
 //@   modifies nothing
 //@   loop 0 (k):
 //@     invariant 0 <= k && k <= len(opts) && rr != nil && fresh(rr)
+//@     invariant len(opts) == 0 ==> rr.ReadMask == nil && rr.Include == nil && !rr.UpdatesOnly && !rr.Backpressure
 //@
 //@ pure func writeOptsOK(opts) = forall i int :: 0 <= i && i < len(opts) ==> !isnil(opts[i]) && (istype(opts[i], writeOptionFunc) ==> cast(opts[i], writeOptionFunc) != nil)
 //@ func ComputeWriteConfig(opts) (res)
@@ -251,6 +253,8 @@ package resource
 //@ func (*Value).Get(opts) (res)
 //@   requires wfValue(recv) && readOptsOK(opts)
 //@   ensures [whole] lastcall(ComputeReadConfig).ReadMask == nil ==> equalmsg(res, recv.value)
+//@   ensures [no-options] len(opts) == 0 ==> equalmsg(res, recv.value)
+//@   ensures [type] !isnil(recv.value) && ref(recv.value) != nil ==> sametype(res, recv.value) && !isnil(res) && ref(res) != nil
 //@   ensures [read-only] recv.value == old(recv.value) && recv.changeTime == old(recv.changeTime) && msgval(recv.value) == old(msgval(recv.value))
 //@   modifies nothing
 //@   replay [mask-valid] ReadMaskPanic(0)
@@ -259,6 +263,7 @@ package resource
 //@   requires wfValue(recv) && req != nil
 //@   requires [mask-valid@C06] req.ReadMask == nil || isnil(recv.value) || pathsvalid(req.ReadMask.Paths, recv.value)
 //@   ensures [nil-mask] req.ReadMask == nil ==> equalmsg(res, recv.value)
+//@   ensures [type] !isnil(recv.value) && ref(recv.value) != nil ==> sametype(res, recv.value) && !isnil(res) && ref(res) != nil
 //@   ensures [projection] req.ReadMask != nil && !isnil(recv.value) && len(req.ReadMask.Paths) > 0 ==> sametype(res, recv.value) && msgval(res) == filtered(msgval(recv.value), req.ReadMask.Paths)
 //@   ensures [read-only] recv.value == old(recv.value) && recv.changeTime == old(recv.changeTime) && msgval(recv.value) == old(msgval(recv.value))
 //@   modifies nothing
@@ -284,6 +289,7 @@ package resource
 //@   ensures [fail-result] err != nil ==> isnil(res)
 //@   // C01/C04: success stores the new value, returns it and publishes exactly one event carrying it
 //@   ensures [stored] err == nil ==> recv.value == res && !isnil(res)
+//@   ensures [type] err == nil ==> sametype(res, value) && ref(res) != nil
 //@   ensures [one-event] err == nil ==> calls(Send) == old(calls(Send)) + 1
 //@   ensures [event-value] err == nil ==> istype(lastarg(Send, 2), *ValueChange) && cast(lastarg(Send, 2), *ValueChange).Value == res
 //@   ensures [event-time] err == nil ==> cast(lastarg(Send, 2), *ValueChange).ChangeTime == recv.changeTime
@@ -325,6 +331,8 @@ package resource
 //@   requires wfColl(recv) && readOptsOK(opts)
 //@   ensures [exists] found == has(recv.byId, keyOf(recv, id))
 //@   ensures [absent] !found ==> isnil(msg)
+//@   ensures [type] found && ref(recv.byId[keyOf(recv, id)].body) != nil ==> sametype(msg, recv.byId[keyOf(recv, id)].body) && !isnil(msg) && ref(msg) != nil
+//@   ensures [no-options] found && len(opts) == 0 ==> equalmsg(msg, recv.byId[keyOf(recv, id)].body)
 //@   ensures [whole] found && readConfig.ReadMask == nil ==> equalmsg(msg, recv.byId[keyOf(recv, id)].body)
 //@   ensures [projection] found && readConfig.ReadMask != nil && len(readConfig.ReadMask.Paths) > 0 ==>
 //@   |   sametype(msg, recv.byId[keyOf(recv, id)].body) && msgval(msg) == filtered(msgval(recv.byId[keyOf(recv, id)].body), readConfig.ReadMask.Paths)
@@ -343,12 +351,17 @@ package resource
 //@   ensures [complete] forall id string :: has(recv.byId, id) && !excluded(readConfig, id, recv.byId[id].body) ==> (exists j int :: 0 <= j && j < len(tmp) && tmp[j].id == id)
 //@   ensures [all-when-unfiltered] readConfig.Include == nil ==> len(res) == len(recv.byId)
 //@   ensures [values] forall j int :: 0 <= j && j < len(res) ==> projected(res[j], tmp[j].body, filter)
+//@   ensures [types] forall j int :: 0 <= j && j < len(res) ==> sametype(res[j], tmp[j].body) && !isnil(res[j]) && (ref(tmp[j].body) != nil ==> ref(res[j]) != nil)
+//@   ensures [no-options] len(opts) == 0 ==> (forall j int :: 0 <= j && j < len(res) ==> equalmsg(res[j], tmp[j].body))
+//@   // stated over the store (callers cannot see the snapshot): every listed message has the type and realness of a stored one
+//@   ensures [from-store] forall j int :: 0 <= j && j < len(res) ==> (exists k string :: has(recv.byId, k) && sametype(res[j], recv.byId[k].body) && !isnil(res[j]) && (ref(recv.byId[k].body) != nil ==> ref(res[j]) != nil))
 //@   ensures [read-only] recv.byId == old(recv.byId) && (forall k string :: has(recv.byId, k) == old(has(recv.byId, k)) && recv.byId[k] == old(recv.byId[k]))
 //@   modifies nothing
 //@   replay [mask-valid] ReadMaskPanic(2)
 //@   loop 0 (k):
 //@     invariant 0 <= k && k <= len(tmp) && len(result) == k && fresh(result)
 //@     invariant forall j int :: 0 <= j && j < k ==> projected(result[j], tmp[j].body, filter)
+//@     invariant forall j int :: 0 <= j && j < k ==> sametype(result[j], tmp[j].body) && !isnil(result[j]) && (ref(tmp[j].body) != nil ==> ref(result[j]) != nil)
 //@
 //@ // ---- optimistic concurrency (C02): GetAndUpdate against ANY get/change/save, i.e. against any interleaving of other
 //@ // writers between its two critical sections: get returns whatever the store holds at that moment (an impure callback
@@ -414,6 +427,7 @@ package resource
 //@   ensures [stored] err == nil ==> has(recv.byId, key) && recv.byId[key] != nil && recv.byId[key].body == res && !isnil(res)
 //@   ensures [others-kept] err == nil ==> (forall k string :: k != key ==> has(recv.byId, k) == old(has(recv.byId, k)) && recv.byId[k] == old(recv.byId[k]))
 //@   ensures [fresh-store] err == nil ==> fresh(res) && ref(res) != ref(msg)
+//@   ensures [type] err == nil ==> sametype(res, msg)
 //@   // C02: a commit installs a NEW item and never edits an existing one: Delete's re-check under the lock compares item
 //@   // pointers, so a version it did not see must not hide behind the pointer it saw
 //@   ensures [new-item] err == nil ==> fresh(recv.byId[key])
@@ -447,6 +461,8 @@ package resource
 //@   track Send
 //@   ensures [fail-unchanged] err != nil ==> sameEntries(recv) && calls(Send) == old(calls(Send)) && isnil(res)
 //@   ensures [stored] err == nil ==> !isnil(res) && fresh(res) && calls(Send) == old(calls(Send)) + 1
+//@   ensures [type] err == nil ==> sametype(res, body) && !isnil(res) && fresh(res)
+//@   ensures [fail-result] err != nil ==> isnil(res)
 //@   ensures [wf] wfColl(recv)
 //@
 //@ func (*Collection).Delete(id0, opts) (res, err)
